@@ -14,7 +14,8 @@ import (
 
 func must(err error) {
 	if err != nil {
-		panic(err)
+		// the library refused a request the harness considers valid: distinguishable from a defect of the harness itself
+		panic(fmt.Sprintf("library call failed: %v", err))
 	}
 }
 
